@@ -112,7 +112,12 @@ def pickle_frame(dps, proto):
 
 # ---- malformed frames (C11) ---------------------------------------------------------
 def bad_line(rng):
-  k = rng.choice(['utf8', 'utf8b', 'fields2', 'fields4', 'number', 'nants', 'infts', 'empty', 'neginf', 'hugets'])
+  k = rng.choice(['utf8', 'utf8b', 'fields2', 'fields4', 'number', 'nants', 'infts', 'empty', 'neginf', 'hugets',
+                  'longbad', 'longutf8'])
+  if k == 'longbad':
+    return b'x' * rng.randint(401, 900) + rng.choice([b' 1\n', b' a b\n', b'\n']), k
+  if k == 'longutf8':
+    return b'y' * rng.randint(380, 500) + rng.choice([b'\xff', b'\xc3', b'\xed\xa0\x80']) + b'z' * rng.randint(0, 60) + rng.choice([b' 1 2\n', b'\n']), k
   if k == 'utf8':
     return b'a\xffb 1 2\n', k
   if k == 'utf8b':
@@ -135,7 +140,20 @@ def bad_line(rng):
 
 
 def bad_pickle(rng):
-  k = rng.choice(['garbage', 'trunc', 'notlist', 'notiter', 'shape', 'types', 'name', 'global', 'nants', 'infts'])
+  k = rng.choice(['garbage', 'trunc', 'notlist', 'notiter', 'shape', 'types', 'name', 'global', 'nants', 'infts',
+                  'cross', 'cross', 'hugeint'])
+  if k == 'cross':
+    names = [None, 5, b'bytes', ('t',), ('a', 'b'), (), ['l'], {'d': 1}, 3.5, True, 'ok']
+    vals = [('x', 2.0), (None, 2.0), ([1], 2.0), (1.0, {}), (1.0, 'y'), ((), ()), (10 ** 400, 2), (2, 10 ** 400), (1.0, 2.0), (float('nan'), float('inf'))]
+    while True:
+      nm, vv = rng.choice(names), rng.choice(vals)
+      if not (nm == 'ok' and vv == (1.0, 2.0)):
+        break
+    p = pickle.dumps([(nm, vv)], protocol=2)
+    return struct.pack('!L', len(p)) + p, 'cross:%s/%s' % (type(nm).__name__, '+'.join(type(x).__name__ for x in vv))
+  if k == 'hugeint':
+    p = pickle.dumps([('b', rng.choice([(10 ** 400, 2), (2, 10 ** 400), (-10 ** 400, 1)]))], protocol=2)
+    return struct.pack('!L', len(p)) + p, k
   if k == 'garbage':
     p = bytes(rng.getrandbits(8) for _ in range(rng.randint(1, 30)))
   elif k == 'trunc':
@@ -161,8 +179,9 @@ def bad_pickle(rng):
 
 
 class Run(object):
-  def __init__(self, wm, proto):
+  def __init__(self, wm, proto, pickle_max=2 ** 20):
     self.wm, self.proto = wm, proto
+    wm.settings['PICKLE_RECEIVER_MAX_LENGTH'] = pickle_max     # read by the receiver's constructor
     self.seen = []
     wm.events.metricReceived.handlers[:] = list(wm.base)
     wm.events.metricReceived.addHandler(lambda m, dp: self.seen.append((m, dp[0], dp[1])))
@@ -200,7 +219,8 @@ def execute(wm, proto, frames, cuts, expected_dps):
   """frames: list of dict(bytes, kind, trip, dps); cuts: byte offsets (sorted) where the stream is cut
   (for udp: datagram boundaries, aligned with frames).  Returns the trace record."""
   stream = b''.join(f['bytes'] for f in frames)
-  run = Run(wm, proto)
+  # the default maximum frame length unless the stream contains an over-long frame (kept small on purpose)
+  run = Run(wm, proto, pickle_max=PICKLE_MAX if any(f['kind'] == 'over' for f in frames) else 2 ** 20)
   segs = []
   allids = {}
   nid = 0
@@ -255,20 +275,47 @@ def judge(ctx, traces, what):
   return out
 
 
-def all_cuts(n, rng, budget):
-  """segmentations of a stream of n bytes: every single cut, 1-byte segments, then random multi-cuts"""
-  out = [[]]
-  out += [[c] for c in range(1, n)]
-  out.append(list(range(1, n)))
-  while len(out) < budget:
-    k = rng.randint(2, min(8, max(2, n - 1)))
-    out.append(sorted(rng.sample(range(1, n), min(k, n - 1))))
-  if len(out) > budget:
-    head = out[:1] + [out[n]] if n < len(out) else out[:1]
-    rest = [c for c in out if c not in head]
-    rng.shuffle(rest)
-    out = head + rest[:budget - len(head)]
+def all_cuts(n, rng, budget, priority=()):
+  """segmentations of a stream of n bytes: no cut, every `priority` position alone (frame boundaries +-4
+  bytes, i.e. inside length prefixes, and inside multi-byte characters), all-1-byte segments, every other
+  single cut while the budget lasts, then pairs of priority cuts and random multi-cuts"""
+  pri = sorted(set(c for c in priority if 0 < c < n))
+  out = [[], list(range(1, n))] if n > 1 else [[]]
+  out += [[c] for c in pri]
+  rest = [[c] for c in range(1, n) if c not in set(pri)]
+  rng.shuffle(rest)
+  out += rest[:max(0, budget - len(out))]
+  extra = max(4, budget // 6)
+  for _ in range(extra):
+    if n <= 2:
+      break
+    if pri and rng.random() < 0.6:
+      k = rng.randint(2, min(5, len(pri) + 1))
+      cs = set(rng.sample(pri, min(k, len(pri))))
+      if rng.random() < 0.5:
+        cs.add(rng.randint(1, n - 1))
+    else:
+      k = rng.randint(2, min(8, n - 1))
+      cs = set(rng.sample(range(1, n), k))
+    out.append(sorted(cs))
   return out
+
+
+def priority_cuts(frames):
+  """positions worth cutting at: around every frame boundary (inside a 4-byte length prefix) and inside
+  every multi-byte UTF-8 character"""
+  pri = set()
+  pos = 0
+  for f in frames:
+    b = f['bytes']
+    for d in range(-4, 6):
+      pri.add(pos + d)
+    for i, byte in enumerate(b):
+      if byte >= 0x80:
+        pri.add(pos + i)
+        pri.add(pos + i + 1)
+    pos += len(b)
+  return pri
 
 
 def execute_raw(wm, proto, stream, cuts, index):
